@@ -205,6 +205,76 @@ theorem C13_reported_collections (n : Nat) (period : Int) (hp : period ≠ 0) :
   obtain ⟨ps, h1, h2, h3⟩ := picks_spec n period hp
   exact ⟨ps, h1, h3, h2⟩
 
+/-- `batch_run` calls `_make_model_kwargs` once per iteration.  For re-iterable parameter values (everything C13
+    quantifies over: scalars, strings, lists, tuples, ranges, dicts) every call yields the same configurations, so
+    the work list is `runList kws iterations` — the one `C13_run_list` describes; an empty list / tuple / set is
+    rejected before any model is built (iterations ≥ 1), and `iterations = 0` runs nothing. -/
+theorem C13_iterations_reiterable (cls : Kwargs κ → Prog) (params : List (Nat × PVal κ)) (n maxSteps : Nat)
+    (period : Int) (hre : ∀ p ∈ params, ∀ vs, p.2 ≠ .once vs) :
+    (∀ kws, makeKwargs params = .ok kws →
+      batchRun cls params n maxSteps period = batchOrder cls maxSteps period (runList kws n)) ∧
+    (∀ e, makeKwargs params = .error e → batchRun cls params (n + 1) maxSteps period = .error e) ∧
+    batchRun cls params 0 maxSteps period = .ok [] := by
+  have hre' : ∀ p ∈ params, p.2.spent = p.2 := by
+    intro p hp
+    have := hre p hp
+    cases h2 : p.2 <;> simp_all [PVal.spent]
+  refine ⟨?_, ?_, rfl⟩
+  · intro kws hk
+    simp only [batchRun, iterLoop_reiterable params kws hre' hk n 0, runList, Nat.zero_add]
+  · intro e he
+    simp only [batchRun, iterLoop, he]
+
+/-- Outside the quantifier — what happens with a one-shot iterator (generator, `iter(...)`, `map`) among the parameter
+    values: the first call of `_make_model_kwargs` consumes it, every later call finds it empty and yields no
+    configuration.  Whatever `iterations ≥ 1` is asked for, the design is run exactly once (iteration 0, RunIds
+    `0 … |kws|-1`); the replications are silently missing. -/
+theorem C13_oneshot_parameters (cls : Kwargs κ → Prog) (params : List (Nat × PVal κ)) (n maxSteps : Nat)
+    (period : Int) (kws : List (Kwargs κ)) (hone : ∃ p ∈ params, ∃ vs, p.2 = .once vs)
+    (hk : makeKwargs params = .ok kws) :
+    batchRun cls params (n + 1) maxSteps period = batchOrder cls maxSteps period (runList kws 1) := by
+  simp only [batchRun, iterLoop_oneshot params kws hk hone n 0, runList]
+  simp
+
+/-- With `number_processes > 1` the result is the concatenation of the runs' row lists in completion order
+    (`results.extend(data)`; nothing is sorted): for every permutation `order` of a work list with distinct RunIds,
+    the rows of each run stay together and in the run's own order, and selecting the rows of RunId `i` out of the
+    parallel result gives exactly what the serial run gives — ordering the chunks by RunId restores the serial result. -/
+theorem C13_parallel_rows_by_run (cls : Kwargs κ → Prog) (maxSteps : Nat) (period : Int) (hp : period ≠ 0)
+    (runs order : List (Run κ)) (h : order.Perm runs) (hnd : (runs.map (·.runId)).Nodup) :
+    ∃ rows serial, batchOrder cls maxSteps period order = .ok rows ∧
+      batchOrder cls maxSteps period runs = .ok serial ∧
+      rows = order.flatMap (runRowsT cls maxSteps period) ∧
+      ∀ r ∈ runs, rows.filter (fun b => b.runId == r.runId) = runRowsT cls maxSteps period r ∧
+        serial.filter (fun b => b.runId == r.runId) = runRowsT cls maxSteps period r := by
+  refine ⟨_, _, batchOrder_total cls maxSteps period hp order, batchOrder_total cls maxSteps period hp runs, rfl, ?_⟩
+  intro r hr
+  have hnd' : (order.map (·.runId)).Nodup := (List.Perm.map _ h).nodup_iff.mpr hnd
+  exact ⟨filter_flatMap_key Run.runId BRow.runId _ (runRowsT_runId cls maxSteps period) order hnd' r (h.mem_iff.mpr hr),
+    filter_flatMap_key Run.runId BRow.runId _ (runRowsT_runId cls maxSteps period) runs hnd r hr⟩
+
+/-- Degenerate limits.  `max_steps = 0`: no step is taken, what is reported is what the constructor collected.
+    A `data_collection_period` at least as large as the number `n` of collections the run made: exactly the first
+    and the last collection are reported (once, if they are the same).  A run that never collected: no row. -/
+theorem C13_degenerate_limits (p : Prog) (n : Nat) (period : Int) :
+    runModel p 0 = construct p ∧
+    (0 < n → (n : Int) ≤ period → picks n period = .ok (if n = 1 then [0] else [0, n - 1])) ∧
+    (period ≠ 0 → picks 0 period = .ok []) := by
+  refine ⟨rfl, ?_, ?_⟩
+  · intro hn hle
+    have hp0 : period ≠ 0 := by omega
+    have hneg : ¬ period < 0 := by omega
+    have hpn : n ≤ period.toNat := by omega
+    unfold picks
+    simp only [hp0, if_false, hneg, filter_mod_range n period.toNat hn hpn]
+    by_cases h1 : n = 1
+    · subst h1; simp
+    · have : ¬ (0 = n - 1) := by omega
+      simp [h1, this]; omega
+  · intro hp0
+    unfold picks
+    by_cases hneg : period < 0 <;> simp [hp0, hneg]
+
 /-! non-vacuity: a class that collects at construction and in step and stops early for one parameter value -/
 section Example
 def exCls (kw : Kwargs Nat) : Prog :=
@@ -221,6 +291,13 @@ example : (batchRun exCls [(0, PVal.sized [1, 5])] 1 3 (-1)).toOption.map (·.ma
     some [(0, 1, [.int 1], some (1, [.int 9])), (1, 3, [.int 3], some (1, [.int 9]))] := by rfl
 example : (batchRun exCls [(0, PVal.scalar 5)] 1 3 2).toOption.map (·.map fun b => (b.step, b.agent)) =
     some [(0, some (1, [.int 5])), (2, some (1, [.int 9])), (3, some (1, [.int 9]))] := by rfl
+example : (batchRun exCls [(0, PVal.once [1, 5])] 3 3 (-1)).toOption.map (·.map fun b => (b.runId, b.iteration, b.step)) =
+    some [(0, 0, 1), (1, 0, 3)] := by rfl
+example : (batchRun exCls [(0, PVal.iter [1, 5])] 2 3 (-1)).toOption.map (·.map fun b => (b.runId, b.iteration, b.step)) =
+    some [(0, 0, 1), (1, 0, 3), (2, 1, 1), (3, 1, 3)] := by rfl
+example : (batchRun exCls [(0, PVal.scalar 5)] 1 0 7).toOption.map (·.map fun b => (b.step, b.agent)) =
+    some [(0, some (1, [.int 5]))] := by rfl
+example : picks 5 9 = .ok [0, 4] := by rfl
 /-! outside the quantifier: a `functools.partial` reporter that raises while attribute 0 is missing, in a model
     whose step swallows the exception of its collect.  The first collect (step 1) leaves `m0 = [1]` and nothing
     else; from then on position `i` of `m0` belongs to collection `i - 1` of `m1`: rows pair the model values of
